@@ -241,7 +241,7 @@ def gen_ops(rng, root, env, n, profile="mixed", bad=0.3):
             if want == "invalid" and rng.random() < 0.3:
                 tree = rng.choice([5, "x", [1], None, True])
             ops.append({"op": "set", "route": rng.choice(["attr", "item"]), "path": p, "value": tree,
-                        "as_config": want == "valid" and rng.random() < 0.35})
+                        "as_config": want == "valid" and rng.random() < 0.35, "foreign": rng.random() < 0.12})
         elif kind == "ctor":
             kw = {}
             for ch in model.stored_children(root):
@@ -515,6 +515,16 @@ class Driver:
                 if inst is None:
                     return None
                 rv = inst
+            if op.get("foreign"):
+                # a configuration of an UNRELATED schema that happens to use the same names (all of them texts that no
+                # other field type takes): it is not a value for this section
+                other = cc.Schema()
+                for ch in model.stored_children(nd):
+                    if ch["kind"] == "field":
+                        other[ch["key"]] = cc.StringField(default="not a value, really\n")
+                other["zz_foreign_only"] = cc.StringField(default="x")
+                rv, label, norm = other(), False, None
+                self.res.count("configurations_of_another_schema_offered_to_sections")
             kind = "set-sub"
         else:
             label, norm = model.accepts(nd, value, self.env)
